@@ -272,3 +272,40 @@ func verifH_C08_repersist() {
 	}
 	verifReach("end")
 }
+
+// C08_clean_while_connected: clean-up passes also run while everybody is connected (no session persisted): the packet log
+// must survive them, because it is where the offset of a client that disconnects LATER is looked up. P1 is emitted, 0..2
+// passes run, the client disconnects (persisted), P2 is emitted, 0..1 passes, the client comes back well inside the
+// window with P1 as its offset: recovered, and P2 - only P2 - is replayed.
+//
+//verif:unwind 30
+//verif:sleep gate
+func verifH_C08_clean_while_connected() {
+	st := &verifStore{socks: map[SocketID]Socket{}}
+	inMem := NewInMemoryAdapterCreator()(st, func() parser.Parser { return &verifParser{} }).(*inMemoryAdapter)
+	period := time.Hour
+	if verifIsNative() {
+		period = 2 * time.Millisecond
+	}
+	a := newSessionAwareAdapter(inMem, time.Hour, period)
+	hdr := &parser.PacketHeader{Type: parser.PacketTypeEvent, Namespace: "/"}
+	a.Broadcast(hdr, []any{"p1"}, NewBroadcastOptions())
+	a.mu.Lock()
+	off := a.packets[len(a.packets)-1].ID
+	a.mu.Unlock()
+	verifWake(verifChoose(0, 2))
+	verifSettle()
+	a.PersistSession(&SessionToPersist{SID: "sid1", PID: "pid1", Rooms: []Room{"sid1"}})
+	a.Broadcast(hdr, []any{"p2"}, NewBroadcastOptions())
+	a.mu.Lock()
+	id2 := a.packets[len(a.packets)-1].ID
+	a.mu.Unlock()
+	verifWake(verifChoose(0, 1))
+	verifSettle()
+	s, ok := a.RestoreSession("pid1", off)
+	verifAssert(ok, "a client that comes back well inside the window is recovered, whatever clean-up passes ran while it was connected")
+	if ok {
+		verifAssert(len(s.MissedPackets) == 1 && s.MissedPackets[0].ID == id2, "and gets exactly what it missed")
+	}
+	verifReach("end")
+}
